@@ -88,7 +88,8 @@ class C18:
                     cases.append(dict(kind="conv", x=rng.choice([0.0, 1e-9, 0.5, 3.0, 10.0, -3.0, rng.uniform(-40, 40)]),
                                       l=rng.choice([0.0, 0.5, 1 - 1e-9, rng.random()])))
                 else:
-                    cases.append(dict(kind="random", N=rng.randint(1, 6), seed=rng.randint(0, 10**6),
+                    cases.append(dict(kind="random", N=rng.randint(1, 6),
+                                      seed=rng.choice([0, 0, 1, 2**31 - 1, rng.randint(0, 10**6), rng.randint(0, 10**6)]),
                                       bad=rng.choice([None, None, "x", 1.5, True, 2.0])))
         return cases
 
@@ -308,6 +309,8 @@ class C18:
             p1, p2 = lw.random_permutation(N, seed), lw.random_permutation(N, seed)
             if not np.array_equal(p1, p2):
                 return "random_permutation not reproducible"
+            if N >= 2 and not np.array_equal(lw.random_unitary(N, float(seed)), u1):
+                return "an integral float seed does not give the matrix of the equal integer seed"
             if not (np.all((p1 == 0) | (p1 == 1)) and np.all(p1.sum(0) == 1) and np.all(p1.sum(1) == 1)):
                 return "random_permutation not a permutation matrix"
             bad = c["bad"]
